@@ -130,10 +130,12 @@ def _name(id_, ctx, like):
 
 
 class _Ctx(object):
-    def __init__(self, modname, funcs, classes):
+    def __init__(self, modname, funcs, classes, foreign=None, mod_alias=None):
         self.modname = modname
         self.funcs = funcs          # new module-level helpers: name -> FunctionDef
         self.classes = classes      # class name -> {method name -> FunctionDef} (new methods only)
+        self.foreign = foreign or {}        # local name -> FunctionDef of a NEW helper imported from another module of the package
+        self.mod_alias = mod_alias or {}    # local module alias -> {helper name -> FunctionDef}
         self.counter = 0
         self.caller_names = set()
 
@@ -266,6 +268,12 @@ def _resolve_helper(call, ctx, cls, selfname):
     f = call.func
     if isinstance(f, ast.Name) and f.id in ctx.funcs:
         return ctx.funcs[f.id], False
+    if isinstance(f, ast.Name) and f.id in ctx.foreign:
+        return ctx.foreign[f.id], False
+    if isinstance(f, ast.Attribute):
+        dotted = ast.unparse(f.value)
+        if dotted in ctx.mod_alias and f.attr in ctx.mod_alias[dotted]:
+            return ctx.mod_alias[dotted][f.attr], False
     if isinstance(f, ast.Attribute) and isinstance(f.value, ast.Name) and selfname and f.value.id == selfname and cls is not None:
         m = ctx.classes.get(cls, {}).get(f.attr)
         if m is not None and not any(ast.unparse(d) in ("property", "staticmethod", "classmethod") or ast.unparse(d).endswith(".setter")
@@ -403,7 +411,7 @@ def _stmt(st, ctx, cls, selfname, depth):
         st2 = _Replace(ie, _name(tmp, ast.Load(), ie)).visit(st)
         return _stmt(pre, ctx, cls, selfname, depth) + _stmt(ast.fix_missing_locations(st2), ctx, cls, selfname, depth)
     # N2 new helpers
-    if depth < 4 and (ctx.funcs or ctx.classes):
+    if depth < 4 and (ctx.funcs or ctx.classes or ctx.foreign or ctx.mod_alias):
         call = None
         todo = [header]
         while todo and call is None:
@@ -544,7 +552,52 @@ def _module_constants(tree):
             st.body = [ast.fix_missing_locations(R().visit(x)) for x in st.body]
 
 
-def normalise_module(tree, modname):
+def _free_globals(fn):
+    loc = _locals_of(fn)
+    return {n.id for n in ast.walk(fn) if isinstance(n, ast.Name) and isinstance(n.ctx, ast.Load) and n.id not in loc} - set(dir(__builtins__)) - \
+        set(__builtins__.keys() if isinstance(__builtins__, dict) else ())
+
+
+def normalise_program(modules):
+    """modules: name -> ModuleInfo (parsed, imports collected).  New helpers of another module are inlined where every global the helper
+    uses (np, another import) denotes the same thing in the caller's module."""
+    if os.environ.get("VERIF_NO_NORMALISE") == "1":
+        return
+    pin = pinned()
+    new_by_mod = {}
+    for name, mod in modules.items():
+        for n in mod.tree.body:
+            if isinstance(n, ast.FunctionDef) and (name + "." + n.name) not in pin:
+                new_by_mod.setdefault(name, {})[n.name] = n
+    for name, mod in modules.items():
+        foreign, alias = {}, {}
+
+        def usable(fn, src):
+            for g in _free_globals(fn):
+                a, b = modules[src].imports.get(g), mod.imports.get(g)
+                if a is None or a != b:
+                    return False
+            return True
+        for local, imp in mod.imports.items():
+            if imp[0] == "from" and imp[1] in new_by_mod and imp[2] in new_by_mod[imp[1]] and imp[1] != name:
+                fn = new_by_mod[imp[1]][imp[2]]
+                if usable(fn, imp[1]):
+                    foreign[local] = fn
+            elif imp[0] == "from" and (imp[1] + "." + imp[2]) in new_by_mod and (imp[1] + "." + imp[2]) != name:
+                src = imp[1] + "." + imp[2]
+                alias[local] = {k: v for k, v in new_by_mod[src].items() if usable(v, src)}
+            elif imp[0] == "module" and imp[1] in new_by_mod and imp[1] != name:
+                alias[local] = {k: v for k, v in new_by_mod[imp[1]].items() if usable(v, imp[1])}
+        # `import eqsig` style access: eqsig.fns.generic._helper(...)
+        for src, fns in new_by_mod.items():
+            if src != name:
+                ok = {k: v for k, v in fns.items() if usable(v, src)}
+                if ok:
+                    alias.setdefault(src, ok)
+        mod.tree = normalise_module(mod.tree, name, foreign=foreign, mod_alias=alias)
+
+
+def normalise_module(tree, modname, foreign=None, mod_alias=None):
     if os.environ.get("VERIF_NO_NORMALISE") == "1":
         return tree
     tree = ast.fix_missing_locations(_Spell().visit(tree))
@@ -570,7 +623,7 @@ def normalise_module(tree, modname):
                 classes.setdefault(cname, {}).setdefault(k, v)
             todo.extend(bases[b])
     _module_constants(tree)
-    ctx = _Ctx(modname, funcs, classes)
+    ctx = _Ctx(modname, funcs, classes, foreign=foreign, mod_alias=mod_alias)
     for n in tree.body:
         if isinstance(n, ast.FunctionDef):
             ctx.caller_names = _locals_of(n) | {x.id for x in ast.walk(n) if isinstance(x, ast.Name)}
